@@ -177,6 +177,13 @@ def decorations(n, links):
     for y in NAMES[:n]:
       if x != y:
         yield ("\t".join(["C", x, "+", y, "-", "0", "1M"]),)
+  # several dependants of one kind on one segment (two containments with the
+  # same container / the same contained segment, given the third segment)
+  if n >= 3:
+    for x in NAMES[:n]:
+      others = [y for y in NAMES[:n] if y != x]
+      yield tuple("\t".join(["C", x, "+", y, "-", "0", "1M"]) for y in others)
+      yield tuple("\t".join(["C", y, "+", x, "+", "0", "1M"]) for y in others)
   for l in links:
     a, b, form, o = l
     if form == 1:
